@@ -64,6 +64,16 @@ package specs
 //@ spec itHas(it *pebble.Iterator, k string) bool
 //@ ghost itValid(it *pebble.Iterator) bool
 //@ ghost itKey(it *pebble.Iterator) string
+// a new iterator ranges over the stored keys inside the bounds of its options (lower inclusive - an absent lower bound is
+// the empty string, below every key -, upper exclusive)
+//@ func github.com/cockroachdb/pebble.(*DB).NewIter
+//@ assigns nothing
+//@ ensures result != nil && fresh(result)
+//@ ensures[key-space-inside-the-bounds] o != nil ==> forallT(k, string, itHas(result, k) ==> cmpS(k, string(o.LowerBound)) >= 0 && (o.UpperBound == nil || cmpS(k, string(o.UpperBound)) < 0))
+//@ func github.com/cockroachdb/pebble.(*Snapshot).NewIter
+//@ assigns nothing
+//@ ensures result != nil && fresh(result)
+//@ ensures[key-space-inside-the-bounds] o != nil ==> forallT(k, string, itHas(result, k) ==> cmpS(k, string(o.LowerBound)) >= 0 && (o.UpperBound == nil || cmpS(k, string(o.UpperBound)) < 0))
 //@ func github.com/cockroachdb/pebble.(*Iterator).SeekGE
 //@ assigns itValid(i), itKey(i)
 //@ ensures result == itValid(i) && (result ==> cmpS(itKey(i), string(key)) >= 0 && itHas(i, itKey(i)))
@@ -102,9 +112,12 @@ package specs
 //@ assigns itValid(i), itKey(i)
 
 // a byte string is at least as long as any of its prefixes
+// hasPrefixS(s, p): the byte string s starts with p
+//@ spec hasPrefixS(s string, p string) bool
 //@ func bytes.HasPrefix
 //@ pure
 //@ ensures result ==> len(s) >= len(prefix)
+//@ ensures[by-content] result == hasPrefixS(string(s), string(prefix))
 
 // ---- sync: lock ghost state (re-entrancy of the current goroutine only) ---------------------
 //@ ghost wheld(m *sync.RWMutex) int
